@@ -18,6 +18,9 @@ class HarnessError(Exception):
     pass
 
 
+# wall-clock limits of single harness runs are generous (x3) so that a heavily loaded machine does not turn into harness errors;
+# a real hang is still caught, just later. VERIF_TIMEOUT_SCALE overrides.
+TIMEOUT_SCALE = float(os.environ.get("VERIF_TIMEOUT_SCALE", "3"))
 _binary = {}
 
 
@@ -107,7 +110,8 @@ class Server:
                 pass
             self.p = None
 
-    def run(self, text, timeout=20.0):
+    def run(self, text, timeout=None):
+        timeout = (timeout or 20.0) * TIMEOUT_SCALE
         if self.p is None or self.p.poll() is not None:
             self.start()
         data = (text.rstrip("\n") + "\nEND\n").encode()
@@ -142,6 +146,7 @@ def parse_lines(lines):
 
 
 def run_fresh(text, timeout=30.0, san=False, nowarm=False):
+    timeout = timeout * TIMEOUT_SCALE
     """Run one scenario in a fresh harness process (replay path)."""
     binary = ensure_built(san)
     env = dict(os.environ)
@@ -167,5 +172,5 @@ def worker_server(san=False):
     return _server[key]
 
 
-def run(text, timeout=20.0, san=False):
+def run(text, timeout=None, san=False):
     return worker_server(san).run(text, timeout)
